@@ -30,4 +30,8 @@ def run(ctx):
     _E.wake_nonblocking(ctx)
     ctx.rule("R-LOOP-PROGRESS", "every way round a while-loop of the stack changes something its exit tests read (no frame can make a thread spin)", floor=5)
     R.loop_progress(ctx, ("J1939_21", "J1939_22", "ElectronicControlUnit", "ControllerApplication"))
+    from rules import generic as GN
+    ctx.rule("R-LOCAL-DEFINED", "no path of a data-link-layer / ECU function reads a local before assigning it (an UnboundLocalError in the job pass ends the job thread)", floor=40)
+    GN.local_defined(ctx, [f for f in ctx.prog.funcs.values() if f.cls is not None and f.cls.name in ("J1939_21", "J1939_22", "ElectronicControlUnit", "MessageListener")],
+                     why=" - raised in the job thread it ends the background processing")
     return "liveness-shaped structural clauses of C07 decided on both data link layers and the bus listener"
